@@ -9,9 +9,9 @@ import zlib
 from . import adapter, par, tlc
 from .common import Check
 
-DIRPATH = {"root": "", "sub": "sub", "deep": "sub/deep", "ex": "ex"}
-SUF = {"f90": ".f90", "F90": ".F90", "f": ".f", "FoR": ".FoR", "fpp": ".fpp", "f9": ".f9", "bak": ".f90.bak", "inc": ".inc", "txt": ".txt"}
-SRC = {"unset": None, "sub": ["sub"], "subRec": ["sub/**"], "glob": ["s*"]}
+DIRPATH = {"root": "", "sub": "sub", "deep": "sub/deep", "ex": "ex", "hid": "sub/.hid"}
+SUF = {"f90": ".f90", "F90": ".F90", "f": ".f", "FoR": ".FoR", "fpp": ".fpp", "f9": ".f9", "bak": ".f90.bak", "inc": ".inc", "INC": ".INC", "txt": ".txt"}
+SRC = {"unset": None, "sub": ["sub"], "subRec": ["sub/**"], "glob": ["s*"], "dot": ["."]}
 EXC = {"none": None, "ex": ["ex"], "exRec": ["ex/**"], "sub": ["sub"], "subRec": ["sub/**"], "file": ["sub/f_sub_f90.f90"]}
 
 
@@ -79,7 +79,7 @@ def check(st):
 def main(tier, seed):
     ck = Check("C18", tier, seed)
     ck.assumptions = [
-        "trees: root, sub, sub/deep, ex, each with one of five file-suffix profiles (default suffixes in mixed case, look-alikes .f9 .f90.bak, .inc, .txt)",
+        "trees: root, sub, sub/deep, ex and the hidden directory sub/.hid, each with one of five file-suffix profiles (default suffixes in mixed case, look-alikes .f9 .f90.bak .INC, .inc, .txt)",
         "settings: source_dirs unset/literal/recursive glob/name glob; excl_paths none/dir/dir/**/file; incl_suffixes {.inc}; excl_suffixes {.F90}; given by command line or by .fortls file",
         "a file is 'indexed' iff the module it declares is returned by workspace/symbol",
     ]
@@ -89,7 +89,7 @@ def main(tier, seed):
         ck.machinery("Discovery_MC violated %s" % r.violated)
         return ck.finish()
     want = 1500 if tier == "quick" else 24000
-    k = max(1, 120000 // want)
+    k = max(1, 300000 // want)
     info = {}
     states = list(tlc.dump_states("Discovery", "Discovery_MC.cfg", info=info, timeout=1800,
                                   prefilter=lambda t: 'stage = "done"' in t and (zlib.crc32(t.encode()) + seed) % k == 0))
